@@ -94,7 +94,43 @@ def act_src(act, roots):
     if op:
         sym = {"xor": "^", "and": "&", "or": "|", "addc": "+", "lt": "<", "eq": "=="}[op[0]]
         s = f"({s} {sym} {op[1] if op[0] == 'addc' else act_src(op[1], roots)})"
+        psl = act.get("psl")
+        if psl is not None:
+            s += f"[{psl[0]}]" if len(psl) == 1 else f"[{psl[0]}:{psl[1]}]"
+        if act.get("pview"):
+            s += "." + VIEW_ATTR[act["pview"]]
     return s
+
+
+def sig_decl(var, s, name):
+    d = s.get("default")
+    if d is None:
+        return f"        {var} = Signal[{ty_src(s['ty'])}](name=\"{name}\")"
+    ty = s["ty"]
+    if ty[0] == "bit":
+        lit = "True" if d else "False"
+    elif ty[0] == "bv":
+        lit = f'"{d:0{ty[1]}b}"'
+    else:
+        lit = str(d - (1 << ty[1]) if ty[0] == "s" and d >> (ty[1] - 1) else d)
+    return f"        {var} = Signal[{ty_src(ty)}]({lit}, name=\"{name}\")"
+
+
+def regs_ctx(t, roots, fname):
+    """the clocked context that updates the parent-owned registers of a node"""
+    regs = t.get("regs") or []
+    if not regs:
+        return []
+    rst = f", std.Reset({roots['rst']})" if regs[0]["rst"] else ""
+    out = [f"        @std.sequential(std.Clock({roots['clk']}){rst})", f"        def {fname}():"]
+    for r in regs:
+        asg = f"_asg({roots[r['name']]}, {act_src(r['src'], roots)})"
+        if r["en"] is not None:
+            out.append(f"            if {act_src(r['en'], roots)}:")
+            out.append("                " + asg)
+        else:
+            out.append("            " + asg)
+    return out
 
 
 # ------------------------------------------------------------------------------ hierarchical
@@ -118,8 +154,9 @@ def render_hier(spec, def_order=None):
             continue
         roots = {p["name"]: f"self.{p['name']}" for p in t["ports"]}
         for s in t["signals"]:
-            out.append(f"        {s['name']} = Signal[{ty_src(s['ty'])}](name=\"{s['name']}\")")
+            out.append(sig_decl(s["name"], s, s["name"]))
             roots[s["name"]] = s["name"]
+        out += regs_ctx(t, roots, "regs")
         glue = []
         for k, inst in enumerate(t["insts"]):
             child = T[inst["t"]]
@@ -175,8 +212,9 @@ def render_flat(spec):
         roots = dict(bind)
         for s in t["signals"]:
             v = f"{pfx}{s['name']}"
-            decls.append(f"        {v} = Signal[{ty_src(s['ty'])}](name=\"{v}\")")
+            decls.append(sig_decl(v, s, v))
             roots[s["name"]] = v
+        ctxs.extend(regs_ctx(t, roots, f"regs{n}"))
         glue = []
         types = {p["name"]: p["ty"] for p in t["ports"]}
         types.update({s["name"]: s["ty"] for s in t["signals"]})
@@ -191,6 +229,8 @@ def render_flat(spec):
                     aw = width(types[act["root"]]) if act.get("sl") is None else (1 if len(act["sl"]) == 1 else act["sl"][0] - act["sl"][1] + 1)
                     if act.get("op") and act["op"][0] in ("lt", "eq"):
                         aw = 1
+                    if act.get("psl") is not None:
+                        aw = 1 if len(act["psl"]) == 1 else act["psl"][0] - act["psl"][1] + 1
                     if aw == width(p["ty"]):
                         cbind[f] = src
                         continue
